@@ -157,8 +157,22 @@ def run(ctx):
             st["hist"]["spelling_%s" % ("default" if s["spelled"] is None else "dot" if s["spelled"] == "." else "abs" if s["spelled"].startswith("/") else "rel")] += 1
         if len(st["samples"]) < 3 and deep and excl and len(rows) < 15:
             st["samples"].append({"argv": [j["query"]], "rows": rows})
+    # the root directory itself as a search root (its canonical path `/` has as many separators as `/usr`):
+    # window 2..2 below `/`, restricted by WHERE to one small directory of the real file system
+    probe = "/usr" if os.path.isdir("/usr") else None
+    if probe:
+        r2 = ctx.impl.rows(["path from / mindepth 2 maxdepth 2 where path like '%s/%%' into list" % probe], cwd=ctx.scratch, timeout=60)
+        got2 = sorted(v.decode("utf-8", "surrogateescape") for v in r2["values"])
+        exp2 = sorted(os.path.join(probe, x) for x in os.listdir(probe))
+        r1 = ctx.impl.rows(["path from / maxdepth 1 where path like '%s/%%' into list" % probe], cwd=ctx.scratch, timeout=60)
+        got1 = [v.decode("utf-8", "surrogateescape") for v in r1["values"]]
+        case = {"argv": ["path from / mindepth 2 maxdepth 2 where path like '%s/%%'" % probe], "tree": "the real root directory"}
+        if got2 != exp2 or got1:
+            ctx.violation("impl-violates-spec", "searching from `/`: depth 2 is not the content of %s (or depth 1 contains entries of it)" % probe, input=case, observed=got2[:20], expected=exp2[:20], depth1=got1[:5])
+        else:
+            st["hist"]["root_directory_window"] = 1
     ctx.coverage.update(
         evaluations=len(jobs), distinct_nontrivial=len(st["distinct"]), traces_validated_against_impl=st["agreed"],
-        rule="random trees (1-3 disjoint roots, up to 50 entries each, depth <= 6, files/dirs/symlinks incl. dangling/FIFOs/sockets/dot-files, adversarial names) x root spellings (relative, ./x, absolute, trailing slash, '.', default) x mindepth/maxdepth in 0..height+2 x bfs/dfs; the binary's exact row sequence is compared with model.Walk.walk_roots fed the observed tree (getdents order from os.scandir) and with an independent recursive listing (multiset + bfs/dfs order predicates). non-trivial = some directory at depth >= 2 and a window that excludes at least one entry",
+        rule="random trees (1-3 disjoint roots, up to 50 entries each, depth <= 6, files/dirs/symlinks incl. dangling/FIFOs/sockets/dot-files, adversarial names) x root spellings (relative, ./x, absolute, trailing slash, '.', default) x mindepth/maxdepth in 0..height+2 x bfs/dfs; the binary's exact row sequence is compared with model.Walk.walk_roots fed the observed tree (getdents order from os.scandir) and with an independent recursive listing (multiset + bfs/dfs order predicates). plus the real root directory `/` as a search root with the window 2..2 restricted to /usr. non-trivial = some directory at depth >= 2 and a window that excludes at least one entry",
         samples=st["samples"], distribution=dict(st["hist"]))
     return ctx.finish(trusted=["canonicalize, read_dir and inode uniqueness are the kernel's; the observer (os.scandir, os.lstat, os.path.realpath) supplies them to the model"])
